@@ -277,16 +277,34 @@ func c14Worker(w *W) {
 			for _, a := range aps {
 				a.Write([]byte("after boundary\n"))
 			}
-			// poll (bounded) until the directory stops changing
-			prev := -1
-			for i := 0; i < 100; i++ {
-				time.Sleep(20 * time.Millisecond)
-				cur := len(c14listing(dir))
-				if cur == prev && i > 5 {
+			// poll (bounded, generous) until every entry the oracle expects to go has gone, then a little
+			// longer so that wrong deletions still in progress are seen too
+			var expectGone []string
+			for _, e := range c.Ents {
+				own := false
+				for _, n := range names {
+					if regexp.MustCompile(`^` + regexp.QuoteMeta(n) + `\.\d{14}$`).MatchString(e.Name) {
+						own = true
+					}
+				}
+				if !e.Dir && own && e.AgeMin > int(c.MaxAge)*60 {
+					expectGone = append(expectGone, e.Name)
+				}
+			}
+			deadline := time.Now().Add(15 * time.Second)
+			for time.Now().Before(deadline) {
+				left := 0
+				for _, n := range expectGone {
+					if _, err := os.Stat(filepath.Join(dir, n)); err == nil {
+						left++
+					}
+				}
+				if left == 0 {
 					break
 				}
-				prev = cur
+				time.Sleep(10 * time.Millisecond)
 			}
+			time.Sleep(150 * time.Millisecond)
 			// files created by the rotation itself are the appender's own young files
 			for name, isDir := range c14listing(dir) {
 				if _, ok := before[name]; !ok {
